@@ -147,6 +147,14 @@ pub proof fn lemma_pf_at(v: Seq<u8>, s: int, n: int, k: int)
     lemma_pf_rec(v, s);
     if k > 0 { lemma_pf_at(v, pf_end(v, s), n - 1, k - 1); }
 }
+// data rules of a pointer-free record whose owner name ends at ne (the rdata part of pf_rr)
+pub open spec fn pf_rd_ok(p: Seq<u8>, ne: int) -> bool {
+    let t = be16(p, ne); let l = be16(p, ne + 8) as int; let d = ne + 10;
+    if t == 2 || t == 5 || t == 12 { pcs_end(p, d) == Some(d + l) }
+    else if t == 15 { l > 2 && pcs_end(p, d + 2) == Some(d + l) }
+    else if t == 6 { pcs_end(p, d) matches Some(n1) && (pcs_end(p, n1) matches Some(n2) && l > 21 && n2 + 20 == d + l) }
+    else { true }
+}
 pub proof fn lemma_pf_rd(v: Seq<u8>, off: int)
     requires pf_rr(v, off)
     ensures pf_rd_ok(v, pcs_end(v, off).unwrap()), pcs_end(v, off).is_some()
